@@ -259,3 +259,67 @@ def run(run, P):
         run.require(found, 'R-CODEC-TAB: bound comparison on the running option number not found in next_option_safe()')
     elif not run.fixture_mode:
         run.require(False, 'anchor function next_option_safe() not found')
+
+
+# ---------------------------------------------------------------------------------------------------------------
+def run_toklen(run, P, units=('coap_pdu.c',)):
+    """(5) the token's size on the wire.  A PDU carries two token lengths: actual_token.length (the application's token) and
+    e_token_length (what the token occupies in the buffer: RFC 8974 extension bytes included).  Everything that measures
+    or walks the buffer -- `used_size - X`, `used_size < X`, `token + X`, `alloc_size`/`max_size` comparisons with X -- has to
+    use the on-wire size.  Sibling agreement: every such expression in the codec unit uses e_token_length; one that uses
+    actual_token.length is off by the 1 or 2 extension bytes for tokens of 13 bytes and more (the TCP Len field then cuts
+    the stream at the wrong place, options are parsed from inside the token)."""
+    run.rule('R-CODEC-TAB')
+    BUF = ('used_size', 'alloc_size', 'max_size')
+    n = 0
+
+    def tok_kind(x):
+        x = strip(x)
+        if isinstance(x, dict) and x.get('k') == 'mem':
+            if x.get('f') == 'e_token_length':
+                return 'wire'
+            if x.get('f') == 'length':
+                b = strip(x.get('b'))
+                if isinstance(b, dict) and b.get('k') == 'mem' and b.get('f') == 'actual_token':
+                    return 'app'
+        return None
+
+    def is_buf(x):
+        x = strip(x)
+        return isinstance(x, dict) and x.get('k') == 'mem' and x.get('f') in BUF
+
+    def is_tokptr(x):
+        x = strip(x)
+        return isinstance(x, dict) and x.get('k') == 'mem' and x.get('f') == 'token' and x.get('p')
+    for f in sorted(P.lib_funcs(), key=lambda f: f['name']):
+        if f['unit'] not in units:
+            continue
+        seen = set()
+        for b in f['blocks']:
+            exprs = [(ev['e'], ev['loc']) for ev in b['elems']]
+            if b.get('term') and b['term'].get('cond') is not None:
+                exprs.append((b['term']['cond'], b['term']['loc']))
+            for e, loc in exprs:
+                for x in walk(e):
+                    if not (isinstance(x, dict) and x.get('k') == 'bin'):
+                        continue
+                    pairs = []
+                    if x.get('op') in ('-', '<', '<=', '>', '>=') and is_buf(x['l']) and tok_kind(x['r']):
+                        pairs.append((short(x['l']), tok_kind(x['r'])))
+                    if x.get('op') in ('<', '<=', '>', '>=') and is_buf(x['r']) and tok_kind(x['l']):
+                        pairs.append((short(x['r']), tok_kind(x['l'])))
+                    if x.get('op') == '+' and is_tokptr(x['l']) and tok_kind(x['r']):
+                        pairs.append((short(x['l']), tok_kind(x['r'])))
+                    for what, kind in pairs:
+                        k2 = (loc, short(x)[:80])
+                        if k2 in seen:
+                            continue
+                        seen.add(k2)
+                        n += 1
+                        run.instance('R-CODEC-TAB', '%s: %s' % (f['name'], short(x)[:70]))
+                        run.oblige('R-CODEC-TAB', kind == 'wire', '%s:toklen' % f['name'])
+                        if kind != 'wire':
+                            run.violation('R-CODEC-TAB', f['name'], loc, 'token-size-field:%s' % what.split('>')[-1].split('.')[-1],
+                                          '%s measures the buffer with actual_token.length, every sibling uses e_token_length: for tokens of 13 bytes and more the two differ by the '
+                                          'RFC 8974 extension bytes, so the size written / position computed is off by 1 or 2' % short(x)[:70], [])
+    run.require(n >= 6 or run.fixture_mode, 'R-CODEC-TAB(5): only %d buffer/token-size expressions found in %s' % (n, units))
